@@ -858,8 +858,10 @@ def stub_of(ct, env, solver, record=True):
             if rdt is not None:
                 # C03 at the level of a run: the step the integrator is handed is THIS run's time_discretization
                 arg = env.ghost["dt"]
+                # (stated with a cut over the two magnitudes alone: it is an identity when the run hands its own argument on)
                 c.prove_in_path("call[_time_integration]:time-step=this-run's-time_discretization(SI)",
-                                L._b(isinstance(arg, SymQ)) if not isinstance(arg, SymQ) else sym.term_of(arg.si()) == sym.term_of(rdt.si()))
+                                L._b(isinstance(arg, SymQ)) if not isinstance(arg, SymQ) else
+                                L.Via([sym.term_of(rdt.si()) > 0], sym.term_of(arg.si()) == sym.term_of(rdt.si())))
         for i, g in enumerate(ct.pre(env)):
             c.prove_in_path(f"call[{ct.name}]:requires[{i}]", g)
         old = env.state.snapshot()
@@ -1452,9 +1454,13 @@ def job_run(fresh, with_stop, with_control, then_continue=False):
             O.prove("stop:nothing-recorded-after-the-instant-that-satisfied-the-condition",
                     bool(ev) and not env.state.changed_since(ev[-1][2]) and log[-1][0] == "stop_check", props=("C16",))
             O.prove("stop:axis-is-a-prefix-of-the-grid", z3.And(env.state["tlen"] <= e["tlen"] + grid.N), props=("C11", "C16"))
-            O.prove("stop:last-recorded-instant-is-the-grid-point-of-its-index(previous+k*dt, SI)",
-                    L.Via([fdt > 0, DT > 0] + list(grid.grid_facts),
-                          env.state["tlast_val"] == t0 + z3.ToReal(env.state["tlen"] - e["tlen"]) * DT), props=("C11", "C12", "C16"))
+            # the axis recorded so far is a prefix of the grid IN ITS VALUES too: the two time conjuncts of the run invariant hold
+            # at the exit by `break` exactly as they would at the start of the next iteration (same cut as in inv-preserved)
+            li = g.get("loop_index")
+            if li is not None and li[0] == RUN_LOOP:
+                nxt = inv_run(env, li[2].next(li[1]), False)
+                for nm in ("C11:instants-counted", "C11:last-instant=previous+k*dt(SI)"):
+                    O.prove(f"stop:at-the-early-exit[{nm}]", nxt[nm], props=("C11", "C12", "C16"))
         else:
             O.cover("exit:exhausted")
             stf = env.state
